@@ -12,6 +12,7 @@
 #include <limits>
 #include <memory>
 #include <random>
+#include <cmath>
 #include <string>
 #include <vector>
 
@@ -77,7 +78,22 @@ static std::vector<T> values(std::mt19937_64& rng)
       v.push_back(off < 0 ? nullptr : reinterpret_cast<T>(BASE + off));
     }
   } else if constexpr (std::is_floating_point_v<T>) {
-    v = { (T)0, (T)1.5, (T)-2.25e10, std::numeric_limits<T>::max(), std::numeric_limits<T>::denorm_min(), (T)70000.75 };
+    v = { (T)0, (T)1.5, (T)-2.25e10, std::numeric_limits<T>::max(), std::numeric_limits<T>::denorm_min(), (T)70000.75,
+          std::numeric_limits<T>::infinity(), -std::numeric_limits<T>::infinity(), (T)-0.0, std::numeric_limits<T>::quiet_NaN() };
+    // signalling NaNs with payloads, built from their bits (a cast to the same type moves bits)
+    if constexpr (sizeof(T) == 4) {
+      for (uint32_t b : { 0x7FA00000u, 0xFFA00001u, 0x7F800001u }) {
+        T x;
+        std::memcpy(&x, &b, 4);
+        v.push_back(x);
+      }
+    } else {
+      for (uint64_t b : { 0x7FF4000000000000ull, 0xFFF4000000000001ull }) {
+        T x;
+        std::memcpy(&x, &b, 8);
+        v.push_back(x);
+      }
+    }
   } else if constexpr (std::is_same_v<T, bool>) {
     v = { false, true };
   } else {
@@ -129,6 +145,11 @@ template<int CAST, typename D, typename S>
 static void cast_pair(std::mt19937_64& rng, const char* sname, const char* dname)
 {
   for (S v : values<S>(rng)) {
+    if constexpr (std::is_floating_point_v<S> && std::is_integral_v<D>) {
+      if (!std::isfinite(v)) {
+        continue; // (converting a NaN or an infinity to an integer has no defined result to compare with)
+      }
+    }
     D plain;
     if constexpr (CAST == 0) {
       plain = static_cast<D>(v);
@@ -370,7 +391,7 @@ int main(int argc, char** argv)
   using IntPPP = int***;
 #define SC(D, S) cast_pair<0, D, S>(rng, #S, #D);
   SC(int, long) SC(long, int) SC(short, long long) SC(unsigned, int) SC(int, unsigned) SC(long long, unsigned long)
-    SC(unsigned char, int) SC(bool, int) SC(double, int) SC(int, double) SC(float, double) SC(long, float)
+    SC(unsigned char, int) SC(bool, int) SC(double, int) SC(int, double) SC(float, double) SC(long, float) SC(float, float) SC(double, double) SC(double, float)
       SC(unsigned long, long) SC(char, unsigned long long) SC(int, char) SC(void*, int*) SC(const int*, int*)
 #define RC(D, S) cast_pair<1, D, S>(rng, #S, #D);
   RC(char*, int*) RC(int*, char*) RC(void*, long*) RC(long*, void*) RC(const char*, int**) RC(int**, void*)
